@@ -1,7 +1,7 @@
 """C13 — hash256 is a structural fingerprint computed as real SHA-256 (DESIGN.md §5 C13)."""
 import vcheck, os
 
-MODULES = ["BeffVerif.Props.C13"]
+MODULES = ["BeffVerif.Props.C13", "BeffVerif.Props.C13Inj"]
 AUDIT = "BeffVerif/Audit/C13.lean"
 
 def run(chk):
@@ -16,7 +16,6 @@ def run(chk):
         "C13: collision resistance of SHA-256 is a cryptographic assumption, never a Lean axiom",
     ]
     chk.open_obligations += [
-        "tokens_injective (self-delimiting encoding) — stated in DESIGN.md, not yet proved",
         "hash256_stream_* theorems over Runtype trees — pending the RT layer",
     ]
     quick = chk.tier == "quick"
